@@ -192,24 +192,41 @@ def replay_edges(ctx: Ctx, edges: List[Dict[str, Any]]) -> Tuple[int, int]:
 
 
 def run(ctx: Ctx) -> None:
-    ids = {"veh": ["v1", "v2"], "req": ["r1"] if ctx.quick else ["r1", "r2"], "st": ["s1"], "bs": ["b1"]}
-    name = write_mc(ctx, "MC_index_quick" if ctx.quick else "MC_index_thorough", ids)
-    cfg = ctx.work / "index.cfg"
-    cfg.write_text(index_cfg(ids, export=True))
-    ctx.log("TLC HiveIndex (exhaustive, exporting every transition) ...")
-    res = tlc.run_tlc(name, str(cfg), ctx.work, name=name, workers=1, timeout=2400, heap="8g")
-    tlc.require_ok(res, allow_violations=True)
-    ctx.add_model(res)
-    ctx.log(f"HiveIndex: {res.distinct} states / {res.generated} transitions, violated={res.violated}")
-    if res.violated:
-        raise MachineryError(f"the transcription HiveIndex itself violates {res.violated}: the specification is wrong")
-    edges = [json.loads(tlc.tla_str_to_py(x)) for x in tlc.printed(res, "EDGE")]
-    if not edges:
-        raise MachineryError("no transitions exported")
-    done, refused = replay_edges(ctx, edges)
+    # two populations: several moving entities around one station / base, and several stations and bases sharing cells
+    # (removal of one of two co-located immobile entities)
+    configs = ctx.pick(
+        [("MC_index_quick", {"veh": ["v1", "v2"], "req": ["r1"], "st": ["s1"], "bs": ["b1"]}),
+         ("MC_index_quick2", {"veh": ["v1"], "req": [], "st": ["s1", "s2"], "bs": ["b1", "b2"]})],
+        [("MC_index_thorough", {"veh": ["v1", "v2"], "req": ["r1", "r2"], "st": ["s1"], "bs": ["b1"]}),
+         ("MC_index_thorough2", {"veh": ["v1"], "req": ["r1"], "st": ["s1", "s2"], "bs": ["b1", "b2"]})])
+    done = refused = 0
+    distinct = 0
+    edges: List[Dict[str, Any]] = []
+    for mc, ids in configs:
+        name = write_mc(ctx, mc, ids)
+        cfg = ctx.work / f"{mc}.cfg"
+        cfg.write_text(index_cfg(ids, export=True))
+        ctx.log(f"TLC HiveIndex {mc} (exhaustive, exporting every transition) ...")
+        res = tlc.run_tlc(name, str(cfg), ctx.work, name=name, workers=1, timeout=2400, heap="8g")
+        tlc.require_ok(res, allow_violations=True)
+        ctx.add_model(res)
+        ctx.log(f"HiveIndex {mc}: {res.distinct} states / {res.generated} transitions, violated={res.violated}")
+        if res.violated:
+            raise MachineryError(f"the transcription HiveIndex itself violates {res.violated}: the specification is wrong")
+        edges = [json.loads(tlc.tla_str_to_py(x)) for x in tlc.printed(res, "EDGE")]
+        if not edges:
+            raise MachineryError("no transitions exported")
+        d, r = replay_edges(ctx, edges)
+        done, refused, distinct = done + d, refused + r, distinct + res.distinct
     ctx.log(f"replayed {done} model transitions through the real simulation_state_ops ({refused} refused moves of stations/bases)")
     ctx.coverage["model_transitions_replayed_in_code"] = done
     ctx.sample({"replayed_transition": edges[len(edges) // 2]})
+
+    class _R:      # what the coverage lines below read
+        pass
+
+    res = _R()
+    res.distinct = distinct
     # T: snapshots of real runs
     items: List[Dict[str, Any]] = []
     base = 1000 * ctx.seed
